@@ -175,8 +175,46 @@ def _check_main(run, P):
     run.do(_kwpair, run, P)
     run.do(_append_only, run, P)
     run.do(carry, run, P, "C07.carry")
+    run.do(_ids_used, run, P)
     from . import c06 as _c06
     run.do(_c06.simplify_callers, run, P, "C07.guard")
+
+
+def _ids_used(run, P):
+    """Every id drawn from the generator becomes the id of exactly one
+    constructed statement, and that statement is put on a statement list."""
+    m = P.module(MOD)
+    n = 0
+    for f in m.functions.values():
+        ids, _ = _gen_names(f)
+        if not ids:
+            continue
+        lists = stmt_list_names(f)
+        ctors = _ctor_calls(f)
+        for name, site in sorted(ids.items()):
+            users = [c for c in ctors if dotted(kwarg(c, "id")) == name]
+            placed = []
+            for c in users:
+                holder = None
+                for s_ in ast.walk(f.node):
+                    if isinstance(s_, ast.Assign) and s_.value is c and isinstance(s_.targets[0], ast.Name):
+                        holder = s_.targets[0].id
+                for x in ast.walk(f.node):
+                    if isinstance(x, ast.Call) and isinstance(x.func, ast.Attribute) \
+                            and x.func.attr == "append" and dotted(x.func.value) in lists and x.args \
+                            and (x.args[0] is c or (holder and dotted(x.args[0]) == holder)):
+                        placed.append(c)
+            n += 1
+            run.ob("C07.fresh", f, site, len(users) == 1 and len(placed) == 1,
+                   construct=f"{f.qualname}: id '{name}' is the id of exactly one constructed "
+                             f"statement, which is appended ({len(users)} constructed, "
+                             f"{len(placed)} appended)",
+                   why="an id that is handed out (and put into depends_on) without a statement "
+                       "behind it means the assignment of that branch / temporary was never "
+                       "made; the same id on two statements makes one of them unreachable for "
+                       "whoever depends on it")
+    if n < 5:
+        raise AnalysisError(f"C07.fresh: only {n} generated ids found in the passes")
 
 
 def carry(run, P, rule):
